@@ -760,6 +760,11 @@ def cases(tier):
                     base['procs'] = base['procs'] + [['pk', [['timeout', 3, 'k']]]]
                     base['natives'] = [['n0', [['await', 'e0']]], ['n1', [['sleep', 1], ['succeed', 'e1', 'nv']]]]
                 out.append(base)
+    # an environment entered late / with an initial time behind or ahead of the clock of the simulation it is entered in
+    for e in (0, 1, 3, 0.5):
+        for i in (0, 2, 5, -5, 2.5):
+            for t in (1, 2, 3, 4, 6, 2.5, -2, 0):
+                out.append({'family': 'late', 'mode': 'embedded', 'enter': e, 'initial': i, 'until': t, 'procs': []})
     for fam, (alpha, untils) in fams.items():
         ss = scripts(alpha, L)
         if fam == 'cond' and thorough:
@@ -811,11 +816,64 @@ def cases(tier):
 
 
 def nontrivial(program):
+    if program.get('family') == 'late':
+        return True
     txt = repr(program['procs'])
     return any(w in txt for w in ('wait', 'interrupt', 'allof', 'anyof', 'fail', 'raise', 'native'))
 
 
+def check_late(program):
+    """scripted family: an environment with initial time i is entered by a native activity at loop time e and asked to run until
+    t. Entering moves the clock to T0 = max(e, i); a t before T0 is refused (ValueError, no process step runs), otherwise the
+    call returns exactly at t and a ticking process has run at T0, T0+1, ... (a step at t itself may or may not happen)."""
+    e, i, t = program['enter'], program['initial'], program['until']
+    steps, seen = [], {}
+
+    def ticker(env):
+        while True:
+            steps.append(env.now)
+            yield env.timeout(1)
+
+    async def main():
+        await (time + e)
+        env = simpy.Environment(i)
+        env.process(ticker(env))
+        try:
+            await env.until(t)
+            seen['out'] = 'stopped'
+        except ValueError:
+            seen['out'] = 'rejected'
+        seen['now'], seen['envnow'] = time.now, env.now
+        await (time + 2)
+        seen['later'] = list(steps)
+    from ..kernel import ExecTimer
+    try:
+        with ExecTimer():
+            usim.run(main())
+    except BaseException as err:      # noqa
+        return ['late entry (enter %r, initial %r, until %r): run() raised %r' % (e, i, t, err)]
+    T0 = max(e, i)
+    msgs = []
+    if t < T0:
+        if seen.get('out') != 'rejected' or steps:
+            msgs.append('until=%r lies before the clock %r of the entered environment: expected ValueError and no process step, got %r with steps %r at %r'
+                        % (t, T0, seen.get('out'), steps, seen.get('now')))
+    else:
+        must = [T0 + k for k in range(0, 20) if T0 + k < t]
+        if seen.get('out') != 'stopped' or seen.get('now') != t or seen.get('envnow') != t:
+            msgs.append('until=%r (clock %r on entry): expected to return at %r, got %r at time %r (env.now %r)' % (t, T0, t, seen.get('out'), seen.get('now'), seen.get('envnow')))
+        elif steps[:len(must)] != must or any(x > t for x in steps) or len(steps) > len(must) + 1:
+            msgs.append('until=%r (clock %r on entry): the ticking process ran at %r, expected %r (and possibly %r)' % (t, T0, steps, must, t))
+    if seen.get('later') is not None and seen['later'] != steps[:len(seen['later'])]:
+        msgs.append('processes went on after until() returned')
+    if 'later' in seen and len(steps) != len(seen['later']):
+        msgs.append('processes went on after until() returned: %r' % (steps,))
+    return msgs
+
+
 def check(program):
+    if program.get('family') == 'late':
+        return check_late(program), 1, 1, False
     msgs = []
     needs_flag = 'f0' in repr(program['procs'])
     if program.get('mode') != 'embedded' and needs_flag:
